@@ -1854,7 +1854,10 @@ class PyCdlib:
         csum = 0
         curr_sector = 0
         while curr_sector < num_sectors:
-            block = data_fp.read(self.logical_block_size)
+            # Never read beyond the end of the file; the file object may hold
+            # more data than the part that makes up the boot file.
+            block = data_fp.read(min(self.logical_block_size,
+                                     data_len - curr_sector * self.logical_block_size))
             block = block.ljust(2048, b'\x00')
             i = 0
             if curr_sector == 0:
